@@ -148,6 +148,9 @@ def run(ctx):
     for kind, (pos_want, neg_want) in sorted(VALIDATOR_TYPES.items()):
         if kind not in V.entries:
             continue
+        if len(V.funcs(kind)) != 1:
+            ctx.unrecognised("C10.R8", f"VALIDATORS[{kind}]", V.mod.relpath + ":VALIDATORS", "the table entry is not a single function of the package (a callable object or an expression): its accepted types are not read off")
+            continue
         f = V.funcs(kind)[0]
         dn = f.pos_params[0]
         pos, neg = set(), set()
